@@ -30,7 +30,7 @@ def run_profile(res, profile, n_per_job, jobs_per_fw, label):
                      dict(fw=meta[idx], cfg=t[0]["cfg"], events=[(e["ev"], e.get("api", e.get("rc", ""))) for e in t[:l]],
                           before=t[l - 2]["obs"] if l >= 2 else None, rejected_event=t[l - 1] if l <= len(t) else None,
                           trace=t, rejected_at=l, spec="WsConnTrace"))
-    need = {"TOpened", "TLClose", "TLBurst", "TLSend", "TPClose", "TPData", "TPPing", "TPPong", "TPViol", "TLost", "TAdv"}
+    need = {"TOpened", "TLClose", "TLBurst", "TPCloseData", "TLSend", "TPClose", "TPData", "TPPing", "TPPong", "TPViol", "TLost", "TAdv"}
     missing = [a for a in need if res.actions.get("WsConnTrace:" + a, 0) == 0]
     if missing and not v["rejected"]:
         raise common.MachineryError("vacuity: trace actions never taken: %s" % missing)
